@@ -33,10 +33,12 @@ ASSUMPTIONS = [
     "cases whose raw eigenvector has |Re mean(q)| < 1e-9 |q| are boundary for the sign rule and skipped",
     "np.sqrt is instantiated in the driver by a rational approximation (relative error < 2^-120); LAPACK/ARPACK returning "
     "genuine eigenpairs closest to the shift is an external contract, checked numerically by the oracle only",
-    "a single EigenSolve instance is used once per case (the cached is_hermitian flag is a C03 matter: "
-    "corpus/defects/c03_eigensolve_hermitian_cache.py.candidate)",
-    "sparse eigenvalue sensitivities are compared for real symmetric pencils only (complex Hermitian: "
-    "corpus/defects/c01_eigensolve_sparse_complex_hermitian.py.candidate); `_sparse_eigvec_sens` is modelled but not compared",
+    "histories: ONE module sees 3-5 matrices of changing class (real symmetric / real general / complex Hermitian / complex "
+    "general; dense or sparse); every step is compared with the model (dispatch incl. the re-chosen shift-invert solver, "
+    "post-processing) and with a fresh instance (eigenvalues 1e-8, vectors 1e-6: ARPACK start vectors are random)",
+    "sparse sensitivities (eigenvalue and eigenvector seeds) are compared for real symmetric pencils only (complex Hermitian is "
+    "the open C01 finding eigensolve-sparse-complex-hermitian-sens); a 'Factor is exactly singular' error of the LU of the "
+    "singular shifted matrix in _sparse_eigvec_sens is counted as a boundary skip",
 ]
 
 
@@ -61,7 +63,48 @@ def enc_vec(v):
     return enc(np.asarray(v))
 
 
+HCLASSES = {"sym": (False, True), "nonsym": (False, False), "herm": (True, True), "cgen": (True, False)}
+
+
+def build_history(spec):
+    rng = np.random.default_rng(spec["seed"])
+    c = Case()
+    c.spec = spec
+    c.stream = "history"
+    c.hstream = spec.get("hstream", "dense" if rng.random() < 0.5 else "sparse")
+    sp = c.hstream == "sparse"
+    c.n = int(rng.integers(3, 7)) if not sp else int(rng.integers(8, 13))
+    c.gen = spec.get("gen", bool(rng.random() < 0.5))
+    nsteps = int(rng.integers(3, 6))
+    allherm = rng.random() < 0.2
+    names = list(HCLASSES)
+    classes = spec.get("classes") or [str(rng.choice(["sym", "herm"] if allherm else names)) for _ in range(nsteps)]
+    if not allherm and len(set(HCLASSES[k][1] for k in classes)) == 1:   # make sure the Hermitian flag changes
+        classes[1] = "nonsym" if HCLASSES[classes[0]][1] else "sym"
+    allherm = all(HCLASSES[k][1] for k in classes)   # a user flag hermitian=True is admissible only then
+    c.userherm = True if (allherm and rng.random() < 0.5) else None
+    c.sorter = str(rng.choice(list(SORTERS)))
+    c.nmodes = [None, 2, 3][int(rng.integers(0, 3))] if sp else None
+    if c.nmodes is None and sp and c.n <= 8:
+        c.nmodes = 3
+    c.sigma = [None, 0.0, float(int(rng.integers(1, 4)) + 0.5)][int(rng.integers(0, 3))] if sp else None
+    c.fmt = str(rng.choice(["csc", "csr"]))
+    c.steps = []
+    for k, cl in enumerate(classes):
+        cx, hm = HCLASSES[cl]
+        st = build({"stream": c.hstream, "seed": int(rng.integers(0, 2 ** 31)), "n": c.n, "cplx": cx, "herm": hm, "gen": c.gen,
+                    "sorter": c.sorter, "userherm": c.userherm, "nmodes": c.nmodes, "sigmakind": "none", "seedkind": "W"})
+        st.nmodes, st.sigma, st.fmt = c.nmodes, c.sigma, c.fmt
+        st.name = f"step{k}.{cl}"
+        c.steps.append(st)
+    c.name = (f"history.{c.hstream}.n{c.n}.{'gen' if c.gen else 'std'}.{'-'.join(classes)}.{c.sorter}.uh{c.userherm}."
+              f"k{c.nmodes}.sig{c.sigma}.s{spec['seed']}")
+    return c
+
+
 def build(spec):
+    if spec["stream"] == "history":
+        return build_history(spec)
     rng = np.random.default_rng(spec["seed"])
     c = Case()
     c.spec = spec
@@ -232,6 +275,27 @@ def run_impl(c):
             dW[::2] = 0
             dQ[:, ::2] = 0
         out["dW"], out["dQ"] = dW, dQ
+        out["vecpasses"] = []
+        if sp and c.herm and not c.cplx and not c.fe and c.n <= 14:
+            # `_sparse_eigvec_sens`: several seeded passes after ONE response, all-zero seed columns included
+            for ps in range(3):
+                dQp = rng.standard_normal(Qo.shape)
+                if ps != 1:
+                    dQp[:, rng.random(Qo.shape[1]) < 0.4] = 0
+                dWp = rng.standard_normal(W.shape) if ps == 2 else None
+                m.reset()
+                if dWp is not None:
+                    m.sig_out[0].sensitivity = dWp.copy()
+                m.sig_out[1].sensitivity = dQp.copy()
+                try:
+                    m.sensitivity()
+                except RuntimeError as e:
+                    if "singular" in str(e):
+                        out["vecpasses"].append(None)
+                        continue
+                    raise
+                out["vecpasses"].append((dWp, dQp, [s_.sensitivity for s_ in sigs]))
+            m.reset()
         if sp and not (c.herm and not c.cplx):
             out["sens"] = None      # sparse sensitivities are compared for real symmetric pencils only
         else:
@@ -242,6 +306,78 @@ def run_impl(c):
             m.sensitivity()
             out["sens"] = [s.sensitivity for s in sigs]
     return out
+
+
+def run_history(c):
+    pm = _pm()
+    outs = []
+    sp = c.hstream == "sparse"
+    conv = (lambda M: {"csc": sps.csc_matrix, "csr": sps.csr_matrix}[c.fmt](M)) if sp else (lambda M: M.copy())
+    base = SORTERS[c.sorter] or (lambda W, Q: np.argsort(W))
+
+    def make(st):
+        isorts = []
+
+        def sorter(W, Q):
+            i = base(W, Q)
+            isorts.append(np.array(i))
+            return i
+        kw = {"sorting_func": sorter}
+        if c.userherm is not None:
+            kw["hermitian"] = c.userherm
+        if sp:
+            if c.nmodes is not None:
+                kw["nmodes"] = c.nmodes
+            if c.sigma is not None:
+                kw["sigma"] = c.sigma
+        sigs = [pm.Signal("A", conv(st.A))] + ([pm.Signal("B", conv(st.B))] if c.gen else [])
+        return pm.EigenSolve(sigs, **kw), sigs, isorts
+    with warnings.catch_warnings():
+        warnings.simplefilter("ignore")
+        m, sigs, isorts = make(c.steps[0])
+        prev = None
+        for st in c.steps:
+            sigs[0].state = conv(st.A)
+            if c.gen:
+                sigs[1].state = conv(st.B)
+            with Recorder() as rec:
+                m.response()
+            o = {"calls": rec.calls, "isort": isorts[-1], "W": np.array(m.sig_out[0].state), "Q": np.array(m.sig_out[1].state),
+                 "sens": None, "dW": None, "dQ": None, "vecpasses": []}
+            if sp:
+                o["newAinv"] = m.Ainv is not prev
+                prev = m.Ainv
+                op = rec.calls[0]["kwargs"].get("OPinv")
+                V = np.random.default_rng(c.spec["seed"] + 5).standard_normal((c.n, 2))
+                o["opinv"] = (V, np.column_stack([op.matvec(V[:, i]) for i in range(2)]))
+            else:
+                o["newAinv"] = False
+            mf, _, _ = make(st)
+            mf.response()
+            o["fresh"] = (np.array(mf.sig_out[0].state), np.array(mf.sig_out[1].state))
+            outs.append(o)
+    return outs
+
+
+def history_oracle(c, outs):
+    for st, o in zip(c.steps, outs):
+        why = oracle(st, o)
+        if why:
+            return f"{st.name}: {why}"
+        Wf, Qf = o["fresh"]
+        if Wf.shape != o["W"].shape or np.abs(Wf - o["W"]).max() > 1e-8 * max(1.0, np.abs(Wf).max()):
+            return f"{st.name}: eigenvalues depend on the history: {o['W']} vs fresh instance {Wf}"
+        Qh = o["Q"]
+        if np.iscomplexobj(Qf) or np.iscomplexobj(Qh):
+            # complex vectors: the library's arbitrary phase (random ARPACK start vector) survives the module's normalisation
+            # as a sign, so columns are compared up to +-1 (DESIGN C03: "up to the module's own sign normalisation")
+            dcol = np.minimum(np.abs(Qf - Qh).max(axis=0), np.abs(Qf + Qh).max(axis=0)) if Qh.size else np.zeros(0)
+            dmax = float(dcol.max()) if dcol.size else 0.0
+        else:
+            dmax = float(np.abs(Qf - Qh).max()) if Qh.size else 0.0
+        if dmax > 1e-6 * max(1.0, np.abs(Qf).max()):
+            return f"{st.name}: eigenvectors depend on the history (max diff {dmax:.2e})"
+    return None
 
 
 # ----------------------------------------------------------------------------------------------
@@ -314,7 +450,7 @@ def is_herm(M):
 def reqs_for(c, out):
     sp = c.stream == "sparse"
     r = []
-    d = {"m": "c11.dispatch", "n": c.n, "cached": c.userherm, "Aherm": is_herm(c.A), "Bherm": None if c.B is None else is_herm(c.B),
+    d = {"m": "c11.dispatch", "n": c.n, "user": c.userherm, "Aherm": is_herm(c.A), "Bherm": None if c.B is None else is_herm(c.B),
          "Asparse": sp, "Bsparse": None if c.B is None else sp}
     if sp:
         d.update({"modeNormal": True, "A": enc(c.A), "B": None if c.B is None else enc(c.B), "nmodes": c.nmodes,
@@ -336,6 +472,14 @@ def reqs_for(c, out):
             r.append(("eigvalsens", {"m": "c11.eigvalsens", "n": c.n, "nm": int(W.size), "B": None if c.B is None else enc(c.B),
                                      "W": enc_vec(W), "Q": enc(Qo), "dW": enc_vec(out["dW"]),
                                      "Areal": bool(np.isrealobj(c.A)), "Breal": bool(c.B is None or np.isrealobj(c.B))}))
+    for ps, vp in enumerate(out.get("vecpasses", [])):
+        if vp is None:
+            continue
+        dWp, dQp, _ = vp
+        r.append((f"eigvecsens{ps}", {"m": "c11.eigvecsens", "n": c.n, "nm": int(out["W"].size), "A": enc(c.A),
+                                      "B": None if c.B is None else enc(c.B), "W": enc_vec(out["W"]), "Q": enc(out["Q"]),
+                                      "dW": None if dWp is None else enc_vec(dWp), "dQ": enc(dQp),
+                                      "Areal": bool(np.isrealobj(c.A)), "Breal": bool(c.B is None or np.isrealobj(c.B))}))
     return r
 
 
@@ -346,6 +490,9 @@ def decv(v):
 
 def _cmp(ctx, c, what, impl, M, tol):
     I = np.asarray(dense(impl)).astype(complex)
+    if I.size == 0 and M.size and not np.any(M):   # an empty DyadCarrier (no dyad was added) is the zero matrix
+        ctx.agree((c.name, what), nontrivial=False)
+        return True
     if I.shape != M.shape:
         ctx.disagree(c.stream, {"spec": c.spec, "name": c.name, "what": what}, list(I.shape), list(M.shape), "shape mismatch")
         return False
@@ -359,10 +506,23 @@ def _cmp(ctx, c, what, impl, M, tol):
 
 def compare(ctx, c, out, kind, mres):
     case = {"spec": c.spec, "name": c.name, "what": kind}
+    if kind.startswith("eigvecsens") and mres.get("err") == "singular":
+        ctx.skipped_boundary += 1
+        return
     if "ok" not in mres:
         ctx.disagree(c.stream, case, "ok", mres, "model rejects what the code accepts")
         return
     mo = mres["ok"]
+    if kind == "history":
+        impl = [[o["calls"][0]["lib"], bool(o["newAinv"])] for o in out]
+        ctx.compare_exact(c.stream, case, impl, [[r["lib"], bool(r["newAinv"])] for r in mo], key=(c.name, kind))
+        return
+    if kind.startswith("eigvecsens"):
+        _, _, sens = out["vecpasses"][int(kind[len("eigvecsens"):])]
+        _cmp(ctx, c, kind + ".dA", sens[0], dec(mo["dA"]), c.vectol)
+        if c.B is not None:
+            _cmp(ctx, c, kind + ".dB", sens[1], dec(mo["dB"]), c.vectol)
+        return
     raw = out["calls"][0]
     if kind == "dispatch":
         ctx.compare_exact(c.stream, case, [raw["lib"], len(out["calls"])], [mo["lib"], 1], key=(c.name, kind))
@@ -414,6 +574,12 @@ def boundary(c, out):
             return "norm"
         c.posttol = max(c.posttol, 1e-12 / nb)
     c.senstol = 1e-10
+    # eigenvector sensitivities: the (nearly) singular solve is followed by a projection; gap-dependent conditioning
+    c.vectol = 1e-7
+    if out.get("vecpasses"):
+        ev = c.refvals
+        gaps = [np.min(np.abs(np.delete(ev, np.argmin(np.abs(ev - w))) - w)) for w in np.real(out["W"])]
+        c.vectol = 1e-9 * max(1.0, float(np.abs(ev).max())) / max(1e-3, float(min(gaps))) * max(1.0, float(np.abs(out["Q"]).max()) ** 2)
     if out["sens"] is not None and c.stream == "dense":
         W, Q = out["W"], out["Q"]
         worst = 1.0
@@ -452,6 +618,17 @@ def specs(ctx):
         out.append({"stream": "sparse", "seed": seed(), "fe": True})
     for _ in range(10 if ctx.quick else 150):
         out.append({"stream": "sparse", "seed": seed()})
+    # real symmetric sparse pencils: eigenvector-seed sensitivities (several passes after one response)
+    for gen in (False, True):
+        for sk in ("none", "zero", "inside"):
+            for _ in range(2 if ctx.quick else 12):
+                out.append({"stream": "sparse", "seed": seed(), "cplx": False, "herm": True, "gen": gen, "sigmakind": sk})
+    # histories on ONE module with changing matrix class
+    for hs in ("dense", "sparse"):
+        for _ in range(8 if ctx.quick else 80):
+            out.append({"stream": "history", "seed": seed(), "hstream": hs})
+    out.append({"stream": "history", "seed": seed(), "hstream": "dense", "classes": ["sym", "nonsym", "herm", "cgen", "sym"]})
+    out.append({"stream": "history", "seed": seed(), "hstream": "sparse", "classes": ["sym", "nonsym", "herm", "sym"]})
     return out
 
 
@@ -460,6 +637,31 @@ def run_specs(ctx, speclist):
     with _Stub():
         for sp in speclist:
             c = build(sp)
+            if c.stream == "history":
+                r = call_impl(run_history, c)
+                if r[0] == "err":
+                    ctx.disagree(c.stream, {"spec": sp, "name": c.name}, r[1], "ok", r[2][:600])
+                    ctx.oracle_fail(f"history: EigenSolve raises {r[2][:300]} on an admissible history", {"spec": sp, "name": c.name})
+                    continue
+                outs = r[1]
+                why = history_oracle(c, outs)
+                if why:
+                    ctx.oracle_fail(why, {"spec": sp, "name": c.name})
+                ctx.branch(f"history.{c.hstream}.{'gen' if c.gen else 'std'}")
+                items.append((c, outs, "history"))
+                reqs.append({"m": "c11.history", "user": c.userherm, "steps": [
+                    {"Aherm": is_herm(st.A), "Bherm": None if st.B is None else is_herm(st.B), "sparse": c.hstream == "sparse"}
+                    for st in c.steps]})
+                for st, o in zip(c.steps, outs):
+                    st.spec, st.name = sp, c.name + "." + st.name
+                    if boundary(st, o):
+                        ctx.skipped_boundary += 1
+                        continue
+                    for kind, rq in reqs_for(st, o):
+                        if kind == "post":
+                            items.append((st, o, kind))
+                            reqs.append(rq)
+                continue
             r = call_impl(run_impl, c)
             if r[0] == "err":
                 ctx.disagree(c.stream, {"spec": sp, "name": c.name}, r[1], "ok", r[2][:600])
@@ -474,6 +676,9 @@ def run_specs(ctx, speclist):
                 ctx.skipped_boundary += 1
                 ctx.branch("boundary." + b)
                 continue
+            ctx.skipped_boundary += sum(1 for v in out.get("vecpasses", []) if v is None)
+            if out.get("vecpasses"):
+                ctx.branch("sparse.eigvec_passes", len([v for v in out["vecpasses"] if v is not None]))
             ctx.branch(f"{c.stream}.{'fe' if c.fe else 'rand'}.{'c' if c.cplx else 'r'}.{'herm' if c.herm else 'gen'}.{'gen' if c.gen else 'std'}")
             ctx.branch(f"lib.{out['calls'][0]['lib']}")
             ctx.branch(f"sorter.{c.sorter}")
@@ -491,7 +696,7 @@ def correspondence(ctx):
     items = run_specs(ctx, sp)
     seen = 0
     for c, out, kind in items:
-        if kind == "post" and seen < 3:
+        if kind == "post" and seen < 3 and isinstance(out, dict):
             ctx.sample({"case": c.name, "lib": out["calls"][0]["lib"], "eigenvalues": np.real(out["W"]).tolist()[:4]})
             seen += 1
     ctx.notes.append(f"{len(sp)} specs, {len(items)} model requests")
@@ -504,17 +709,17 @@ def search(ctx, disagreements):
         if sp and str(sp) not in seen:
             seen.add(str(sp))
             specl.append(sp)
-    for st in ("dense", "sparse"):
+    for st in ("dense", "sparse", "history"):
         for _ in range(40):
             specl.append({"stream": st, "seed": ctx.rng.randrange(2 ** 31)})
     with _Stub():
         for sp in specl:
             c = build(sp)
-            r = call_impl(run_impl, c)
+            r = call_impl(run_history if c.stream == "history" else run_impl, c)
             if r[0] == "err":
                 found.append({"what": f"EigenSolve raises {r[2][:300]}", "witness": {"spec": sp, "name": c.name}})
             else:
-                why = oracle(c, r[1])
+                why = history_oracle(c, r[1]) if c.stream == "history" else oracle(c, r[1])
                 if why:
                     found.append({"what": why, "witness": {"spec": sp, "name": c.name}})
             if len(found) >= 5:
@@ -538,8 +743,8 @@ def replay(ctx, data):
         return {"still_failing": False, "note": "replay file names no failing input (see no_longer_checks)"}
     with _Stub():
         c = build(sp)
-        r = call_impl(run_impl, c)
+        r = call_impl(run_history if c.stream == "history" else run_impl, c)
     if r[0] == "err":
         return {"still_failing": True, "what": r[2][:500], "case": c.name}
-    why = oracle(c, r[1])
+    why = history_oracle(c, r[1]) if c.stream == "history" else oracle(c, r[1])
     return {"still_failing": bool(why), "what": why, "case": c.name}
